@@ -96,7 +96,29 @@ def _ctor_build(case):
 
     f = case["form"]
     if f == "mapping":
-        return H({C.dec_out(o): c for o, c in case["items"]})
+        d = {C.dec_out(o): c for o, c in case["items"]}
+        mt = case.get("mtype", "dict")
+        if mt == "proxy":
+            import types
+
+            return H(types.MappingProxyType(d))
+        if mt == "chain":
+            import collections
+
+            return H(collections.ChainMap(d))
+        if mt == "userdict":
+            import collections
+
+            return H(collections.UserDict(d))
+        if mt == "counter":
+            import collections
+
+            return H(collections.Counter(d))
+        if mt == "ordered":
+            import collections
+
+            return H(collections.OrderedDict(d))
+        return H(d)
     if f == "pairs":
         return H(_container(case, [(C.dec_out(o), c) for o, c in case["items"]]))
     if f == "range":
@@ -315,7 +337,7 @@ def generate(rnd, tier, scale):
                 rnd.shuffle(uniq)
                 if rnd.random() < 0.1 and uniq:
                     uniq[rnd.randrange(len(uniq))][1] = -rnd.randint(1, 2)
-                yield dict(k="ctor", form=form, items=uniq)
+                yield dict(k="ctor", form=form, items=uniq, mtype=rnd.choice(["dict", "dict", "proxy", "chain", "userdict", "counter", "ordered"]))
             elif form in ("pairs", "h"):
                 items = [list(x) for x in a] + [list(x) for x in rnd.sample(a, min(len(a), rnd.randint(0, 2)))]
                 rnd.shuffle(items)
